@@ -87,7 +87,7 @@ class _TransportNotifyMiddleware:
 
     def process_request(self, req: falcon.Request, resp: falcon.Response) -> None:
         """Bind the server to ``HTTP`` on the first request handled here."""
-        if self._server.transport_kind is None:
+        if self._server.transport_kind is not TransportKind.HTTP:
             self._server._notify_transport(TransportKind.HTTP, frozenset())
 
 
